@@ -158,6 +158,13 @@ def run(repo, chk):
                 fr_uses.append("other:" + norm(par)[:40])
     chk.ob("R16.3", "interpret.Interactor.interact:intercept-result-only-tested", "test" in fr_uses and set(fr_uses) <= {"test", "kept"}, ia2.where,
            "the result of the intercept chain (possibly ABSENT) is only tested for identity with ABSENT before it may become the value")
+    from .shared import late_bound
+    for m_ in ("tweak", "rewrite"):
+        fo = repo.func(f"overlay.Overlay.{m_}")
+        lb = late_bound(fo.node)
+        chk.ob("R16.3", f"overlay.Overlay.{m_}:each-variable-is-supplied-its-own-value", not lb, fo.where,
+               f"{m_}() builds one intercept per selector, bound to that selector's own value at construction: a declared-only variable supplied together with others proceeds with the value given for it"
+               + (f" -- {lb}" if lb else ""))
     em = repo.func("probe.Probe._emit")
     chk.ob("R16.3", "probe.Probe._emit:returns-ABSENT-after-push", [norm(r.value) for r in returns_of(em.node)] == ["ABSENT"], em.where, "a plain probe never overrides: its emitter returns ABSENT (after pushing the event)")
     oe = repo.func("probe.OverridableProbe._emit")
